@@ -412,6 +412,17 @@ func renderTrace(ev []mon.TraceEv, n int) []string {
 
 func (p c04) traced(c *core.Ctx) {
 	sc := RandomGraph(c.Rng, GraphOpts{MinN: 2, MaxN: 10, Types: world.TypesAll, PCycle: 0.8, Chords: 2, ByTypeSlice: 0.3, QualSlice: 0.2, PUnnamed: 0.3})
+	var extra []any
+	var plan map[string]world.SubPlan
+	if c.Index%3 == 2 {
+		// substituting post-processor (early references are wrappers) on an interface-only graph
+		sc = RandomGraph(c.Rng, GraphOpts{MinN: 2, MaxN: 7, Types: plainAB, PCycle: 1, Chords: 2, ByTypeSlice: 0.2, OnlyIface: true, PUnnamed: 0.3})
+		plan = map[string]world.SubPlan{}
+		for x := 0; x < 1+c.Rng.Intn(2); x++ {
+			plan[sc.Nodes[c.Rng.Intn(len(sc.Nodes))].DisplayName()] = world.SubPlan{Early: true}
+		}
+		extra = append(extra, world.NewSubstituter(plan))
+	}
 	// inject faults: init / aps failures in some components (lazy ones are only hit by the later lookups);
 	// half of them transient (fail on the first invocation only), so that a later lookup re-attempts
 	// the creation successfully
@@ -436,7 +447,7 @@ func (p c04) traced(c *core.Ctx) {
 			}
 		}
 	}
-	r := world.Start(sc, world.Options{})
+	r := world.Start(sc, world.Options{Extra: extra})
 	if r.Outcome() == "panic" || r.Outcome() == "diverged" {
 		c.Count("abnormal_starts_skipped", 1)
 		return
@@ -474,12 +485,58 @@ func (p c04) traced(c *core.Ctx) {
 	pop := world.Describe(r.Population())
 	points := r.NodePoints(pop)
 	var ps []string
-	for _, cmp := range r.CheckWiring(pop, points) {
-		ps = append(ps, cmp.Kind+": "+cmp.Msg)
+	if plan == nil { // with wrappers only identity is judged (a wrapper of the holder is not "the holder itself")
+		for _, cmp := range r.CheckWiring(pop, points) {
+			ps = append(ps, cmp.Kind+": "+cmp.Msg)
+		}
 	}
 	ps = append(ps, r.CheckIdentity(pop)...)
 	c.Count("recreated_after_transient_failure_checked", 1)
 	if len(ps) > 0 {
-		c.Fail("", "after a creation that failed once and was re-attempted successfully: "+ps[0], failDetail(sc, r, map[string]any{"problems": ps}))
+		class := ""
+		if plan != nil && earlyRefOfFailedAttemptEscaped(r.Tracer.Events()) {
+			class = "F-C04-early-wrapper-of-failed-attempt"
+		}
+		c.Fail(class, "after a creation that failed once and was re-attempted successfully: "+ps[0], failDetail(sc, r, map[string]any{"problems": ps, "substitution_plan": plan}))
 	}
+}
+
+// earlyRefOfFailedAttemptEscaped: input/history classifier for the known finding: some creation
+// handed out an early reference (early-fn returned one) and then failed, while another creation that
+// started inside it completed successfully (a dependent that may have captured the early reference).
+func earlyRefOfFailedAttemptEscaped(ev []mon.TraceEv) bool {
+	type frame struct {
+		name      string
+		early     bool
+		completed bool // some nested creation completed successfully
+	}
+	var stack []*frame
+	for _, e := range ev {
+		switch {
+		case e.Op == "create-fn" && e.Phase == "call":
+			stack = append(stack, &frame{name: e.Name})
+		case e.Op == "early-fn" && e.Phase == "ret" && e.Err == "":
+			for _, f := range stack {
+				if f.name == e.Name {
+					f.early = true
+				}
+			}
+		case e.Op == "create-fn" && e.Phase == "ret":
+			if len(stack) == 0 {
+				continue
+			}
+			top := stack[len(stack)-1]
+			stack = stack[:len(stack)-1]
+			if e.Err != "" {
+				if top.early && top.completed {
+					return true
+				}
+			} else {
+				for _, f := range stack {
+					f.completed = true
+				}
+			}
+		}
+	}
+	return false
 }
